@@ -1,4 +1,5 @@
 import Femio.Model.Meshio
+import Femio.Model.MeshioHist
 import Femio.Model.SubMeshTables
 import Femio.Lemmas.SubMeshProps
 /-! # C06 — legacy VTK export describes the same mesh
@@ -253,5 +254,138 @@ example : (toMeshio meshioName tet2ToMeshio exVtk).toOption.map (fun o => (o.poi
 -- error branch: a dangling node id is a `KeyError`, never a silently wrong position
 example : toMeshio meshioName tet2ToMeshio ({ exVtk with elems := [[⟨5, 3, [30, 10, 21]⟩]] } : VtkIn Nat) = .error .key := by decide
 example : (permute tet2ToMeshio [10, 20, 30, 40, 23, 13, 12, 14, 24, 34]) = some [10, 20, 30, 40, 12, 23, 13, 14, 24, 34] := by decide
+
+/-! ## histories on one live object (`Model/MeshioHist.lean`): the export is a function of the CURRENT public state
+
+The real export translates node ids with the cached table `nodes.id2index`, not with `nodes.ids`.  `Coherent` (the table is
+`enumerate(nodes.ids)`) is evaluated by the harness on the live object before every export of the `history` stream; the
+theorems say that every public modifier keeps it, that under it the export of the live object is `toMeshio` of its public
+state (so `C06_index_translation`, `C06_point_data`, `C06_export_succeeds` apply to it), hence equals the export of a freshly
+constructed object with the same content, and that exports in the middle of a history are invisible. -/
+
+open Femio.MeshioHist
+
+theorem tableLookup_mkTableFrom (n : Nat) (ids : List Id) (i : Id) :
+    tableLookup (mkTableFrom n ids) i = (idPos ids i).map (· + n) := by
+  induction ids generalizing n with
+  | nil => simp [mkTableFrom, tableLookup, idPos]
+  | cons a t ih =>
+    simp only [mkTableFrom, tableLookup, idPos]
+    split
+    · simp
+    · rw [ih]
+      cases idPos t i with
+      | none => rfl
+      | some k => simp only [Option.map_some]; congr 1; omega
+
+theorem tableLookup_mkTable (ids : List Id) : tableLookup (mkTable ids) = idPos ids := by
+  funext i
+  rw [mkTable, tableLookup_mkTableFrom]
+  cases idPos ids i <;> simp
+
+theorem cellBlocksWith_idPos (typeName : Nat → Option (List Char)) (perm : List Nat) (ids : List Id)
+    (bs : EBlocks (List Id)) : cellBlocksWith typeName perm (idPos ids) bs = cellBlocks typeName perm ids bs := by
+  induction bs with
+  | nil => rfl
+  | cons b t ih =>
+    have hb : cellBlockWith typeName perm (idPos ids) b = cellBlock typeName perm ids b := rfl
+    simp only [cellBlocksWith, cellBlocks, ih, hb]
+    rfl
+
+/-- the lookup table of the nodes is `enumerate(nodes.ids)` -/
+def Coherent (o : Obj α) : Prop := o.id2index = mkTable o.pub.nodes.ids
+
+/-- **C06_history_export**: when the table is coherent the export of the live object is `toMeshio` of its current public
+    state — whatever history produced that state. -/
+theorem C06_history_export {typeName : Nat → Option (List Char)} {perm : List Nat} {o : Obj α} (h : Coherent o) :
+    exportObj typeName perm o = toMeshio typeName perm o.pub := by
+  unfold exportObj toMeshio
+  rw [h, tableLookup_mkTable, cellBlocksWith_idPos]
+  rfl
+
+theorem step_coherent {cfg : Cfg} {o : Obj α} (op : Op α) (hc : cfg.idsSetterRefreshes = true ∨ op.isSetNodeIds = false)
+    (h : Coherent o) : Coherent (step cfg o op) := by
+  unfold Coherent at *
+  cases op with
+  | editNodeData f => exact h
+  | setNodeFrame ids d => rfl
+  | setNodeIds ids =>
+    rcases hc with hc | hc
+    · simp [step, hc]
+    · simp [Op.isSetNodeIds] at hc
+  | editElems f => exact h
+  | editNodal f => exact h
+  | doExport => exact h
+
+/-- **C06_history_coherent**: every public modifier re-establishes / keeps the table — for the repaired `ids` setter all
+    histories, for the upstream one the histories that do not use it. -/
+theorem C06_history_coherent {cfg : Cfg} (ops : List (Op α)) {o : Obj α}
+    (hc : cfg.idsSetterRefreshes = true ∨ ∀ op ∈ ops, op.isSetNodeIds = false) (h : Coherent o) :
+    Coherent (run cfg o ops) := by
+  induction ops generalizing o with
+  | nil => exact h
+  | cons op t ih =>
+    have h1 : Coherent (step cfg o op) :=
+      step_coherent op (hc.imp id fun hall => hall op (by simp)) h
+    exact ih (hc.imp id fun hall op' hop' => hall op' (List.mem_cons_of_mem _ hop')) h1
+
+/-- **C06_export_after_history**: after ANY history of public modifications (and exports) on a freshly constructed object the
+    export is `toMeshio` of the object's current public state, which is also what an independently constructed fresh object
+    with the same content exports. -/
+theorem C06_export_after_history {typeName : Nat → Option (List Char)} {perm : List Nat} {cfg : Cfg} (m : VtkIn α)
+    (ops : List (Op α)) (hc : cfg.idsSetterRefreshes = true ∨ ∀ op ∈ ops, op.isSetNodeIds = false) :
+    exportObj typeName perm (run cfg (fresh m) ops) = toMeshio typeName perm (run cfg (fresh m) ops).pub ∧
+    exportObj typeName perm (run cfg (fresh m) ops) = exportObj typeName perm (fresh (run cfg (fresh m) ops).pub) := by
+  have h1 := C06_history_export (typeName := typeName) (perm := perm) (C06_history_coherent ops hc (o := fresh m) rfl)
+  have h2 := C06_history_export (typeName := typeName) (perm := perm) (o := fresh (run cfg (fresh m) ops).pub) rfl
+  exact ⟨h1, h1.trans h2.symm⟩
+
+/-- **C06_exports_invisible**: exports in the middle of a history do not change the object — removing them from the history
+    gives the same final object (so the second of two exports writes what the first wrote, and an export after
+    `[export, modification]` writes what it writes after `[modification]`). -/
+theorem C06_exports_invisible {cfg : Cfg} (ops : List (Op α)) (o : Obj α) :
+    run cfg o (ops.filter fun op => !op.isExport) = run cfg o ops := by
+  induction ops generalizing o with
+  | nil => rfl
+  | cons op t ih =>
+    cases op with
+    | doExport => simpa [run, step, Op.isExport] using ih o
+    | editNodeData f => simpa [run, Op.isExport] using ih (step cfg o (.editNodeData f))
+    | setNodeFrame ids d => simpa [run, Op.isExport] using ih (step cfg o (.setNodeFrame ids d))
+    | setNodeIds ids => simpa [run, Op.isExport] using ih (step cfg o (.setNodeIds ids))
+    | editElems f => simpa [run, Op.isExport] using ih (step cfg o (.editElems f))
+    | editNodal f => simpa [run, Op.isExport] using ih (step cfg o (.editNodal f))
+
+/-- a four-node mesh with one triangle (ids 1..4 stored ascending) -/
+def exHist : VtkIn Nat := { nodes := ⟨[1, 2, 3, 4], [10, 20, 30, 40]⟩, elems := [[⟨1, 3, [1, 2, 3]⟩]], nodal := [] }
+
+/-- the history of finding `C06-ids-setter-stale-id2index`: the nodes are renumbered 4, 3, 2, 1 through the `ids` setter and
+    the triangle is rewritten accordingly (the same three nodes) -/
+def exRenumber : List (Op Nat) := [.setNodeIds [4, 3, 2, 1], .editElems fun _ => [[⟨1, 3, [4, 3, 2]⟩]]]
+
+/-- **C06_ids_setter_counterexample**: with the upstream `ids` setter the export after that history addresses the positions
+    of the OLD ids (`[3, 2, 1]`), whereas the mesh the object describes (and the repaired configuration) has the triangle on
+    positions `[0, 1, 2]`. -/
+theorem C06_ids_setter_counterexample :
+    (exportObj meshioName tet2ToMeshio (run Cfg.upstream (fresh exHist) exRenumber)).toOption.map (fun o => o.cells.map (·.rows))
+      = some [[[3, 2, 1]]] ∧
+    (toMeshio meshioName tet2ToMeshio (run Cfg.upstream (fresh exHist) exRenumber).pub).toOption.map (fun o => o.cells.map (·.rows))
+      = some [[[0, 1, 2]]] ∧
+    (exportObj meshioName tet2ToMeshio (run Cfg.fixed (fresh exHist) exRenumber)).toOption.map (fun o => o.cells.map (·.rows))
+      = some [[[0, 1, 2]]] := by
+  refine ⟨by decide, by decide, by decide⟩
+
+-- non-vacuity: a history with every kind of step on the mixed example mesh; the hypothesis of `C06_export_after_history`
+-- holds for it under both configurations when the `ids` setter is not used, and the export is the one of the final state
+def exOps : List (Op Nat) :=
+  [.doExport, .editNodeData (fun d => d.map (· + 1)), .doExport, .doExport,
+   .setNodeFrame [10, 12, 13, 14, 20, 23, 24, 30, 34, 40, 77] [1, 12, 13, 14, 2, 23, 24, 3, 34, 4, 77],
+   .editElems (fun bs => bs.reverse), .editNodal (fun vs => vs.take 1), .doExport]
+example : ∀ op ∈ exOps, op.isSetNodeIds = false := by decide
+example : (exportObj meshioName tet2ToMeshio (run Cfg.upstream (fresh exVtk) exOps)).toOption.map
+      (fun o => (o.points, o.cells.map (fun c => (c.name, c.rows)))) =
+    some ([1, 12, 13, 14, 2, 23, 24, 3, 34, 4, 77],
+          [("tetra10".toList, [[0, 4, 7, 9, 1, 5, 2, 3, 6, 8]]), ("triangle".toList, [[7, 0, 4]])]) := by decide
+example : Coherent (run Cfg.upstream (fresh exVtk) exOps) := by unfold Coherent; decide
 
 end Femio.C06
